@@ -12,7 +12,7 @@ def run(rep):
     q = rep.tier == 'quick'
     fw.standin(rep, 'difftest.py', ['run', 'F2', rep.seed, 6000 if q else 40000, '--max-depth', 4],
                'translation validation: compiled clause bodies with cuts vs reference interpreter',
-               'random body trees depth<=%d over call/true/fail/!/,/;/->/\\+ , leaves with 0/1/2 answers, 2 clauses, caller with 2 alternatives' % (3 if q else 4))
+               'random body trees depth<=%d over call/true/fail/!/,/;/->/\\+ , leaves with 0/1/2 answers, 2 clauses, caller with 2 alternatives' % 4)
     if not q:
         fw.standin(rep, 'difftest.py', ['run', 'F2', rep.seed, 0, '--exhaustive', '--max-depth', 2],
                    'translation validation, exhaustive depth<=2', 'all 35341 body trees of depth<=2', timeout=1800)
